@@ -16,7 +16,8 @@ Doc(mid, roid, kind) == [mid |-> mid, roid |-> roid, kind |-> kind]
 Pool == { Doc(9, "RO1", "roCreate"), Doc(1000, "RO1", "roCreate"),
           Doc(10, "RO1", "ok"), Doc(100, "RO1", "warn"), Doc(11, "RO1", "fail"),
           Doc(101, "RO1", "roDelete"), Doc(8, "RO1", "roDelete"), Doc(99, "RO2", "ok"),
-          Doc(12, "RO1", "roReplace") }      \* a roReplace is a message, not a second roCreate
+          Doc(12, "RO1", "roReplace"),       \* a roReplace is a message, not a second roCreate
+          Doc(13, "RO1", "warn2") }          \* merges with two warnings of the same kind
 
 (* every injective sequence over the pool, length 0..MaxDocs               *)
 ShortLists == UNION { { s \in [1..n -> Pool] : \A a, b \in 1..n : a # b => s[a] # s[b] } : n \in 0..MaxDocs }
